@@ -297,6 +297,7 @@ def shards(tier: str, seed: int) -> list[dict]:
             "stdlib": [c08.STDLIB[(2 * i + k) % len(c08.STDLIB)] for k in range(2)] if quick else
                       [c08.STDLIB[(3 * i + k) % len(c08.STDLIB)] for k in range(3)],
             "own": (["griffe"] if i == 0 else ["_griffe"] if i == 1 else []), "depth": 2 if quick else 3,
+            "structural_pkgs": 12 if quick else 300,
         })
     return out
 
@@ -312,6 +313,19 @@ def generated_cases(rng: random.Random, spec: dict, uid: str):  # noqa: ANN201
         if rng.random() < 0.3:
             yield {"kind": "files", "source": "static-rich", "roots": [files], "package": name, "agent": "static", "resolve": not resolve,
                    "implicit": rng.random() < 0.5, "parser": None}
+    # structural modules of the C01 generator: duplicates, re-assigned documented attributes (forwarded docstrings),
+    # wrappers, instance attributes, overloads, properties with setters - as one-module packages
+    from vf.gen.modules import Gen
+
+    for i in range(spec.get("structural_pkgs", 0)):
+        name = f"wm{uid}_{i}"
+        src = Gen(rng, dup_prob=rng.choice([0.3, 0.5])).module()
+        try:
+            compile(src, "<c09>", "exec")
+        except SyntaxError:
+            continue
+        yield {"kind": "files", "source": "static-structural", "roots": [{f"{name}/__init__.py": src}], "package": name,
+               "agent": "static", "resolve": False, "implicit": False, "parser": rng.choice([None, "google"])}
     for i in range(spec["importable_pkgs"]):
         name = f"wi{uid}_{i}"
         files, _ = rich_modules.gen_package(rng, name, flavour="importable", depth=rng.randint(1, depth))
